@@ -67,6 +67,9 @@ func runGentest(args []string) int {
 			if i%6 == 4 {
 				as = genAliasSetGeneric(prng.Stream(seed, "c20", "aliasset", i))
 			}
+			if i%6 == 1 {
+				as = genAliasSetSiblings(prng.Stream(seed, "c20", "aliasset", i))
+			}
 			jobs = append(jobs, fwproto.Job{ID: i, Tree: as.Tree, Root: as.Root, Source: true})
 			t := as.Desc + "\n"
 			for _, f := range as.Tree.SortedFiles() {
